@@ -114,6 +114,10 @@ Proof. intros. unfold append. cbn [fst]. destruct (_ =? 1); reflexivity. Qed.
 Lemma state_commit : forall nd r, n_state (fst (commit nd r)) = n_state nd.
 Proof. intros. unfold commit. destruct (_ && _); reflexivity. Qed.
 
+Lemma state_ack_commit : forall rv nd r,
+  n_state (fst (if ack_counts rv nd r then commit nd r else (nd, []))) = n_state nd.
+Proof. intros. destruct (ack_counts rv nd r); [apply state_commit | reflexivity]. Qed.
+
 (* the three ways a response can leave a node in Candidate state *)
 Lemma response_candidate : forall rv nd r s,
   is_candidate (n_state (fst (handle_response rv nd r s))) = true ->
@@ -124,11 +128,11 @@ Lemma response_candidate : forall rv nd r s,
 Proof.
   intros rv nd r s. unfold handle_response.
   destruct (n_state nd) eqn:S; destruct (q_kind r) eqn:K; destruct (s_result s) eqn:R; cbn [fst]; auto;
-    try (rewrite state_commit, S; discriminate);
+    try (rewrite state_ack_commit, S; discriminate);
     try (match goal with |- context [if n_term nd <? ?l then _ else _] => destruct (n_term nd <? l) end; cbn [fst]; auto; discriminate).
   - (* Candidate, Vote, Ok *)
     destruct (vote_counts rv nd r) eqn:VC; cbn [fst]; auto.
-    unfold vote_received. destruct (_ <? _); cbn [fst]; [discriminate|]. intros _. right; left. auto.
+    unfold vote_received. destruct (_ <? _); cbn [fst]; [destruct (fix_ack_term rv); discriminate|]. intros _. right; left. auto.
   - (* Election, PreVote, Ok *)
     unfold pre_vote_received. destruct (_ <? _); cbn [fst].
     + intros _. right; right. auto.
@@ -152,7 +156,7 @@ Proof.
     unfold vote_received.
     change (n_size (upd_peer nd (q_to r) (p_set_voted true))) with (n_size nd).
     destruct (N.ltb_spec (n_size nd / 2) (votes (upd_peer nd (q_to r) (p_set_voted true)))); cbn [fst].
-    + intros _ _. repeat split; auto.
+    + intros _ _. repeat split; auto. destruct (fix_ack_term rv); reflexivity.
     + change (n_state (upd_peer nd (q_to r) (p_set_voted true))) with (n_state nd). rewrite S. discriminate.
   - unfold pre_vote_received. destruct (_ <? _); cbn [fst].
     + unfold election; cbn. discriminate.
@@ -589,4 +593,4 @@ Proof. intros rv size evs Hs DV SV. apply election_safety_cond; auto. Qed.
 Lemma election_partial_example : forall rv,
   let h := c_hist (run rv w29_old_term_commit_n w29_old_term_commit) in
   double_vote_b h = false /\ stale_vote_b h = false /\ leaders h = [(0, 1); (2, 2); (0, 3); (2, 4)].
-Proof. intros [[|] [|]]; vm_compute; auto. Qed.
+Proof. intros [[|] [|] [|]]; vm_compute; auto. Qed.
